@@ -70,6 +70,8 @@ def _alpha_status(st, rid=None):
             # 'moving: <step name of another run than the current one>' is reported as step 99
             stale = word == 'moving' and rid not in (None, int(m.group(1)))
             return {'code': code, 'word': word, 'k': 99 if stale else int(m.group(2))}
+    if text == 'hook':
+        return {'code': code, 'word': 'hook', 'k': 0}
     if text == 'moving: ':
         return {'code': code, 'word': 'moving', 'k': 0}
     return {'code': code, 'word': '?', 'k': 0}
@@ -81,7 +83,7 @@ class SeqWorld:
     """a real module class(SequencerMixin, Drivable) whose write_target starts the sequence the harness chose;
     instrumented step functions; the patched sleep of frappy.lib.sequence; all under scheduler `s`"""
 
-    def __init__(self, s, fm, truthy=('more', None)):
+    def __init__(self, s, fm, truthy=('more', None), hook='none'):
         boot()
         import frappy.lib.sequence as fs
         from frappy.errors import IsBusyError
@@ -135,6 +137,9 @@ class SeqWorld:
                 world.ev(ev='start_e', ok=ok)
                 world.last_ok = ok
 
+        # the idle-status hook: the class docstring of SequencerMixin names _ext_state(), the code calls readHwStatus()
+        if hook != 'none':
+            setattr(SeqMod, {'hw': 'readHwStatus', 'ext': '_ext_state'}[hook], lambda self: (self.Status.WARN, 'hook'))
         self.cls = SeqMod
         self.last_ok = None
 
@@ -233,7 +238,7 @@ def _replay_seq(job):
         return enabled[0]
 
     s = ds.Scheduler(strategy, max_steps=20000)
-    w = world[0] = SeqWorld(s, beh[0]['fm'])
+    w = world[0] = SeqWorld(s, beh[0]['fm'], hook=beh[0].get('hook', 'none'))
     result = {}
 
     def drv():
@@ -270,6 +275,8 @@ def _replay_seq(job):
                 if not evdiff and any(not _match(a, obs, act) for a in alts[j]):
                     result['branch'] = j        # the implementation took another branch the specification allows
                     return
+                result['hook'] = beh[0].get('hook', 'none')
+                result['alternatives'] = alts[j]
                 result.update(step=j, action={k: v for k, v in st.items() if k not in ('exp', 'ev')},
                               expected=st['exp'], expected_event=st['ev'], observed=obs, observed_events=evs,
                               diff=diff, late=st['late'])
@@ -278,9 +285,10 @@ def _replay_seq(job):
 
     with w.patch():
         s.spawn('drv', drv)
+        s.stop_when = lambda: s.threads['drv'].finished       # what the sequence thread does afterwards is not compared
         s.run()
     exc = {n: repr(t.exc) for n, t in s.threads.items() if t.exc is not None}
-    if exc or s.deadlock or s.livelock:
+    if exc or ((s.deadlock or s.livelock) and not s.threads['drv'].finished):
         if 'step' not in result:
             result.update(step=-1, diff=['crash'], late=False, action={'act': 'crash'},
                           observed={'exceptions': exc, 'deadlock': s.deadlock, 'livelock': s.livelock})
@@ -322,7 +330,7 @@ def _seq_scenario(rnd, nkinds=None, maxlen=4):
             ops.append(('sleep', rnd.choice([0, 1, 1, 2, 3, 5, 8])))          # half ticks
             ops.append(('start', [rnd.choice(kinds) for _ in range(rnd.randint(1, maxlen))]))
         return ops
-    sc = {'fm': rnd.choice(['ee', 'ew', 'we', 'ww']), 'truthy': rnd.choice([['more', None], [1, 0], [True, False]]),
+    sc = {'fm': rnd.choice(['ee', 'ew', 'we', 'ww']), 'hook': rnd.choice(['none', 'none', 'hw', 'ext']), 'truthy': rnd.choice([['more', None], [1, 0], [True, False]]),
           'threads': {'A': starter(rnd.randint(1, 4))}}
     b = []
     for _ in range(rnd.randint(1, 6)):
@@ -339,7 +347,7 @@ def _run_seq_scenario(sc, strategy):
     from .. import detsched as ds
     s = ds.Scheduler(strategy, max_steps=8000)
     s.stop_when = lambda: s.now > T0 + 300 * TICK        # a script needs far less than that
-    w = SeqWorld(s, sc['fm'], tuple(sc['truthy']))
+    w = SeqWorld(s, sc['fm'], tuple(sc['truthy']), sc.get('hook', 'none'))
     ready = []
 
     def client(name, ops):
@@ -371,7 +379,7 @@ def _run_seq_scenario(sc, strategy):
         s.run()
         exc = {n: repr(t.exc) for n, t in s.threads.items() if t.exc is not None}
         stuck = s.deadlock or s.livelock or s.stopped
-        tr = [{'ev': 'init', 'fm': sc['fm']}] + w.log[:400]
+        tr = [{'ev': 'init', 'fm': sc['fm'], 'hook': sc.get('hook', 'none')}] + w.log[:400]
         if not exc and not stuck:
             obs = w.observe()
             tr.append({'ev': 'quiet', 'cached': obs['cached'], 'live': {k: obs[k] for k in ('code', 'word', 'k')}})
@@ -390,7 +398,7 @@ def _seq_random(args):
 SEQ_SMALL = [     # small scenarios whose schedules are enumerated (bounded preemptions)
     {'fm': 'ew', 'truthy': ['more', None], 'threads': {'A': [('start', ['ad', 'd']), ('sleep', 9), ('start', ['d'])],
                                                         'B': [('sleep', 1), ('stop',), ('status',)]}},
-    {'fm': 'we', 'truthy': [1, 0], 'threads': {'A': [('start', ['adc']), ('start', ['r'])],
+    {'fm': 'we', 'hook': 'hw', 'truthy': [1, 0], 'threads': {'A': [('start', ['adc']), ('start', ['r'])],
                                                 'B': [('status',), ('sleep', 2), ('stop',), ('status',)]}},
     {'fm': 'ee', 'truthy': [True, False], 'threads': {'A': [('start', ['r']), ('sleep', 1), ('start', ['dc', 'adx'])],
                                                       'B': [('sleep', 3), ('stop',)], 'C': [('start', ['d2'])]}},
@@ -418,6 +426,11 @@ def _seq_sig(bad):
     sig = {'module': 'Sequencer', 'action': bad['action']['act'], 'diff': ','.join(sorted(set(bad['diff'])))}
     if bad.get('late'):
         sig['stop_during_wait'] = True
+    obs = bad.get('observed') or {}
+    for exp in [bad.get('expected') or {}] + list(bad.get('alternatives') or []):
+        if 'hook' in (exp.get('word'), (exp.get('cached') or {}).get('word')) and \
+                'IDLE' in (obs.get('code'), (obs.get('cached') or {}).get('code')):
+            sig['idle_hook'] = bad.get('hook')          # the hook's answer was expected, plain IDLE observed
     return sig
 
 
@@ -613,7 +626,7 @@ def run(chk):
     tier = 'quick' if quick else 'thorough'
     # ---- 1 design checks and behaviour emission: independent TLC runs side by side
     seq_gens = [f'Gen_Sequencer_{tier}_stop.cfg', f'Gen_Sequencer_{tier}_refused.cfg'] + \
-               ([] if quick else ['Gen_Sequencer_thorough_kinds.cfg'])
+               ([] if quick else ['Gen_Sequencer_thorough_kinds.cfg', 'Gen_Sequencer_thorough_ext.cfg'])
     sim_gens = [f'Gen_SimDrive_{tier}_move.cfg', f'Gen_SimDrive_{tier}_ramp.cfg', f'Gen_SimDrive_{tier}_store.cfg']
     thunks = [lambda: model_check('Sequencer', f'MC_Sequencer_{tier}.cfg', timeout=1200),
               lambda: model_check('SimDrive', f'MC_SimDrive_{tier}.cfg', timeout=1200)]
